@@ -33,14 +33,48 @@ def path_atoms(f, path, decs):
         if ptr < len(path) and peel(cond)[0] == 'phi':
             # the branch condition is a merged value: use the definition executed on this very path
             cond = f.expr_operand_on_path(t['d'], path, ptr)
-        ptr += 1
         if isinstance(v, tuple) and v and v[0] == 'otherwise':
             val = ('ne', tuple(v[1]))
         else:
             val = ('eq', v)
         a = atom_of(cond, val, f.switch_ty(b))
+        if a is not None and a[0] == 'cmp' and (peel_c(a[2])[0] == 'phi' or peel_c(a[3])[0] == 'phi') and ptr < len(path):
+            # a comparison with a merged operand (e.g. a flag computed earlier on this path): resolve the operands along the path
+            rv = _chase(f, {'k': 'use', 'o': t['d']})
+            if rv is not None and rv['k'] == 'binop':
+                db = _def_block_of_binop(f, t['d'])
+                pidx = max((k for k, bb in enumerate(path[:ptr + 1]) if bb == db), default=None) if db is not None else None
+                if pidx is not None:
+                    x = f.expr_operand_on_path(rv['a'], path, pidx, 'T')
+                    y = f.expr_operand_on_path(rv['b'], path, pidx, 'T')
+                    a2 = atom_of(('bin', rv['op'], x, y), val, None)
+                    if a2 is not None:
+                        a = a2
+        ptr += 1
         out.append((b, a))
     return out
+
+
+def peel_c(t):
+    while isinstance(t, tuple) and t and t[0] in ('ref', 'deref', 'rawref'):
+        t = t[1]
+    return t
+
+
+def _def_block_of_binop(f, op):
+    """block holding the (single) definition that a switch operand chases to"""
+    for _ in range(10):
+        if not (op.get('k') in ('copy', 'move') and not op['p']['pr']):
+            return None
+        ds = [d for d in f._defs() if d[0] == op['p']['l']]
+        if len(ds) != 1 or ds[0][2] == 'T':
+            return None
+        st = f.stmts(ds[0][1])[ds[0][2]]
+        if st['r']['k'] == 'use':
+            op = st['r']['o']
+            continue
+        return ds[0][1]
+    return None
 
 
 def classify_write(f, b, i, st):
@@ -239,6 +273,22 @@ def consistent(f, path, decs):
         while subj[0] in ('discr', 'as') or (subj[0] == 'field' and str(subj[2]).isdigit()) or (subj[0] == 'un' and subj[1] == 'Not'):
             subj = subj[2] if subj[0] == 'un' else subj[1]
         subj = peel(subj)
+        if subj[0] == 'arg' and f.local_ty(subj[1]).startswith('&') and not f.local_ty(subj[1]).startswith('&mut') and cond[0] == 'discr':
+            # the variant of `*arg` behind a shared reference cannot change during the call
+            (_, a), = path_atoms(f, path, [d])
+            if a[0] == 'is':
+                k = ('isarg', subj[1])
+                if k in seen and seen[k] != a[2]:
+                    return False
+                seen.setdefault(k, a[2])
+                for k2, vs in list(seen.items()):
+                    if k2 == ('notarg', subj[1]) and a[2] in vs:
+                        return False
+            elif a[0] == 'isnot':
+                if seen.get(('isarg', subj[1])) in a[2]:
+                    return False
+                seen.setdefault(('notarg', subj[1]), set()).update(a[2])
+            continue
         if subj[0] != 'call' or f.loops_containing(subj[3]) or f.loops_containing(b):
             continue
         (_, a), = path_atoms(f, path, [d])
@@ -438,6 +488,13 @@ def per_item_calls(P, f, callee_name):
                 break
         h = innermost_loop(f, s.b)
         if h is not None:
+            if it is None:
+                # the call does not use the loop variable (`for _ in ..`): take the iterator the loop itself is driven by
+                body = f.loops()[h]
+                for c in f.calls():
+                    if c.b in body and c.callee == 'std::iter::Iterator::next' and innermost_loop(f, c.b) == h and c.args:
+                        it = _strip_into_iter(f.expr_operand(c.args[0], c.b, 'T'))
+                        break
             out.append(ItemCall(f, s, it, trees, h, 'loop', loop_exits_only_on_exhaustion(f, h)))
     for s in f.calls():
         if not (s.names() & set(ORDER_KEEPING_CONSUMERS)) or not s.args:
